@@ -213,8 +213,9 @@ fn language_job(ctx: &Ctx, job: usize, iters: u64) -> Stats {
         if rng.chance(1, 2) {
             // bodies with every connective / construct (the quantifier body extends as far right as possible)
             let mut cfg = crate::gen::GenCfg::simple(&names[..k], 3);
-            cfg.allow_fix = false;
-            cfg.binder_weight = 6;
+            cfg.allow_fix = rng.chance(1, 3); // also quantifiers around / inside fixed points (non-convergent ones are skipped)
+            cfg.max_fix_depth = 1;
+            cfg.binder_weight = if cfg.allow_fix { 30 } else { 6 };
             let ast = crate::gen::gen_ast(&mut rng, &cfg);
             body = crate::gen::render(&ast, &mut rng, crate::gen::Style::Plain);
             st.bump("language_bodies_with_all_connectives");
@@ -253,6 +254,7 @@ fn language_job(ctx: &Ctx, job: usize, iters: u64) -> Stats {
                 Err(e) => st.violate("c04.language", "C04:language:foreign-variable".into(), format!("`{}`: {}", text, e), case),
             },
             Ok(Err(e)) => st.violate("c04.language", "C04:language:rejected".into(), format!("`{}` rejected: {}", text, e), case),
+            Err(crate::util::Caught::Budget("fp")) => st.violate("c04.language", "C04:language:fixed-point-does-not-converge".into(), format!("`{}`: the reference converges, the engine exceeded 1000 fixed-point iterations", text), case),
             Err(c) => st.violate("c04.panic", format!("C04:language:{}", c.signature()), format!("`{}`: {:?}", text, c), case),
         }
     }
@@ -299,6 +301,7 @@ pub fn replay(_ctx: &Ctx, _monitor: &str, case: &Value, st: &mut Stats) {
         let text = case.get("text").and_then(|t| t.as_str()).unwrap_or("").to_string();
         if let Ok(ast) = refsyn::parse_text(&text) {
             if let Ok((rnames, want)) = refsem::eval_formula(&ast) {
+                util::budget(20_000_000, 1000);
                 let r = guarded(|| ParsedFormula::new(&mut BufReader::new(text.as_bytes()), None).map(|pf| pf.eval()));
                 st.evals += 1;
                 match r {
